@@ -42,19 +42,20 @@ def P(name, quick, thorough, ops):
     return {'name': name, 'quick': quick, 'thorough': thorough, 'ops': ops}
 
 
-DID = P('did', 16, 400, 120)
-NODE = P('node', 16, 300, 150)
-SELECT = P('select', 8, 64, 120)
-SAO = P('sao', 32, 600, 150)
-SAOLONG = P('saolong', 8, 96, 60)
-STAKING = P('staking', 16, 300, 150)
+# thorough tier: 6-10 times the quick tier (a first version with 600/300/400 histories took hours for one check on 16 cores)
+DID = P('did', 16, 160, 120)
+NODE = P('node', 16, 128, 150)
+SELECT = P('select', 8, 48, 120)
+SAO = P('sao', 32, 256, 150)
+SAOLONG = P('saolong', 8, 48, 60)
+STAKING = P('staking', 16, 128, 150)
 
 ALL_FAM = ['did', 'node', 'sao', 'block', 'bank', 'staking', 'fault', 'select']
 
 PROPS = {
     'C01': {
         'theorems': 'Properties/C01', 'obligation_files': ['Obligations/ObAmbient'],
-        'profiles': [SAO, STAKING, DID, NODE, P('twin:sao', 4, 48, 150), P('twin:staking', 6, 64, 150), P('twin:did', 2, 16, 120), P('twin:node', 2, 16, 150),
+        'profiles': [SAO, STAKING, DID, NODE, P('twin:sao', 4, 24, 150), P('twin:staking', 6, 32, 150), P('twin:did', 2, 8, 120), P('twin:node', 2, 8, 150),
                      P('twin:scenario:d10-residue', 1, 1, 0)],
         'projection': ['*'], 'monitors': ['frame.rejected_unchanged', 'twin.'], 'families': ['did', 'node', 'sao', 'block', 'bank', 'staking', 'fault'],
         'extra': ['twin'],
@@ -67,7 +68,7 @@ PROPS = {
     },
     'C03': {
         'theorems': 'Properties/C03', 'obligation_files': ['Obligations/ObAmbient'],
-        'profiles': [STAKING, NODE, P('twin:staking', 6, 64, 150)],
+        'profiles': [STAKING, NODE, P('twin:staking', 6, 32, 150)],
         'projection': ['proc.sharesBeforeModified', 'node.Node#5', 'node.Node#6'], 'monitors': ['proc.', 'twin.'], 'families': ['staking', 'node', 'block'],
     },
     'C04': {
@@ -159,7 +160,7 @@ PROPS = {
     },
     'C18': {
         'theorems': 'Properties/C18', 'obligation_files': ['Obligations/ObGenesis'],
-        'profiles': [P('genesis', 12, 200, 120)],
+        'profiles': [P('genesis', 12, 96, 120)],
         'projection': ['*'], 'monitors': ['genesis.'], 'families': ['genesis'],
     },
     'C19': {
